@@ -16,6 +16,8 @@ open Util
    I lines: Execute immediately followed by Stop; judged by chk_C18 (a Stop that leaves through its grace although nothing is
             in flight = stop_grace_expired, goroutine_leak, the barrier clauses); the same script is replayed on the model
             with the Stop caller scheduled BEFORE the pipeline goroutines, which must show a join and no goroutine left;
+   D lines: a second Stop (concurrent, re-entrant from the held sink, repeated) while the first Stop is in progress; judged
+            by chk_C18: sx:<j> (that call still running after 2 s) = EStopAgainOver = second_stop_blocked;
    L line : two overlapping Stop calls; chk_C18 must accept, the literal reading (chk_literal) does not (F18c);
    M / MX lines: several goroutines calling EmitSync / Emit on one instance as fast as they can (child process, plain and
             built with the race detector). Not a statement about the model (data races are outside it): the verdicts are the
@@ -25,7 +27,7 @@ open Util
 
 let string_of_lclause = function
   | ClSinkAfterStop -> "sink_after_stop" | ClSinkRunning -> "sink_running_after_stop" | ClSyncAfterStop -> "emitsync_after_stop" | ClStopGrace -> "stop_grace_expired"
-  | ClStopOverGrace -> "stop_over_grace" | ClEmitStuck -> "emit_blocked_after_stop"
+  | ClStopOverGrace -> "stop_over_grace" | ClEmitStuck -> "emit_blocked_after_stop" | ClSecondStopBlocked -> "second_stop_blocked"
   | ClStuck -> "stuck" | ClLeak -> "goroutine_leak" | ClLoserEarly -> "loser_stop_returns_early"
 
 let split_hash (toks : string list) : string list list =
@@ -186,6 +188,7 @@ let parse_event (tok : string) : levent option =
   | ["to"] -> Some ETimeout
   | ["so"; j] -> Some (EStopOver (nat_of_int (int_of_string j)))
   | ["eo"; j] -> Some (EEmitOver (nat_of_int (int_of_string j)))
+  | ["sx"; j] -> Some (EStopAgainOver (nat_of_int (int_of_string j)))
   | ["gr"; b; f] -> Some (EGoroutines (nat_of_int (int_of_string b), nat_of_int (int_of_string f)))
   | _ -> None
 
@@ -389,6 +392,33 @@ let handle (toks : string list) : string =
            else if leak <> "0" then Printf.sprintf "chk goroutine_leak after the concurrent run and Stop (%s)" d
            else "ok nt"
        | _ -> "bad line")
+  | "D" :: kind :: _ :: how :: mode :: _ :: "#" :: evs ->
+      if List.exists stop_panicked evs then "chk panic_escaped Stop" else
+      if List.mem "np" evs then "ok" else      (* the first Stop was not seen to win the CAS in time: nothing to judge *)
+      let tr = List.filter_map parse_event evs in
+      if List.length tr <> List.length evs then "bad event token" else
+      (* mode n: the sink is held beyond the grace period on purpose (as in family B mode h), so the first Stop leaving
+         through its grace and the abandoned sink ending after it are the expected observations: the monitor judges the
+         trace projected onto the Stop calls, the first one read as joined *)
+      let tr = if mode <> "n" then tr else
+          List.filter_map (function
+              | EStopReturn (j, _) when int_of_nat j = 1 -> Some (EStopReturn (j, true))
+              | ESinkBegin _ | ESinkEnd _ -> None
+              | e -> Some e) tr in
+      (match chk_C18 tr with
+       | Some ClSecondStopBlocked ->
+           let over = List.filter (fun t -> String.length t > 3 && String.sub t 0 3 = "sx:") evs in
+           Printf.sprintf "chk second_stop_blocked %s: a Stop call made while another Stop call was in progress (or after it returned) was still running 2 s after it began (query kind %s; held sink on %s; %s); a Stop that is not the first one is a no-op: in the model it returns with three own steps enabled in every shared state (C18_stop_idempotent, C18_stop_returns_alone)"
+             (String.concat " " over) kind
+             (match how with "s" -> "a pipeline goroutine (AddSyncSink, asynchronous Emit path)" | "a" -> "a sink-pool worker (AddSink)" | _ -> "the EmitSync caller's goroutine")
+             (match mode with
+              | "c" -> "call 2 = concurrent Stop from another goroutine while the first Stop is joining the held sink, call 3 = repeated Stop after the first returned"
+              | "r" -> "call 2 = Stop called by the sink itself while the first Stop is joining it, call 3 = repeated Stop after the first returned"
+              | _ -> "the sink stays blocked, the first Stop leaves through its grace, call 2 = repeated Stop while the sink is still blocked")
+       | Some cl -> "chk " ^ string_of_lclause cl
+       | None ->
+           let rets = List.length (List.filter (function EStopReturn _ -> true | _ -> false) tr) in
+           if rets >= 2 then "ok nt" else "ok")
   | "L" :: "#" :: evs ->
       let tr = List.filter_map parse_event evs in
       (match chk_C18 tr with
